@@ -64,6 +64,7 @@ structure State (σ Op Ret : Type) where
   now : Nat
   lin : List (LinE Op Ret)
   done : List (Rec Op Ret)
+  acqs : List Nat            -- ghost: threads in the order they acquired the lock
 
 inductive Act (Op : Type)
   | inv (t : Nat) (op : Op)
@@ -79,7 +80,7 @@ def upd {β : Type} (f : Nat → β) (a : Nat) (b : β) : Nat → β := fun x =>
   simp [upd, h]
 
 def initState {σ Op Ret : Type} (sys : Sys σ Op Ret) : State σ Op Ret :=
-  ⟨sys.init, .free, fun _ => .idle, 0, [], []⟩
+  ⟨sys.init, .free, fun _ => .idle, 0, [], [], []⟩
 
 /-- RUnlock -/
 def relShared : Lock → Lock
@@ -107,7 +108,7 @@ def step {σ Op Ret : Type} (sys : Sys σ Op Ret) (s : State σ Op Ret) : Act Op
     match s.pc t with
     | .waiting op i =>
       match acquire (sys.mode op) t s.lock with
-      | some l => some { s with lock := l, pc := upd s.pc t (.locked op i), now := s.now + 1 }
+      | some l => some { s with lock := l, pc := upd s.pc t (.locked op i), now := s.now + 1, acqs := s.acqs ++ [t] }
       | none => none
     | _ => none
   | .read t =>
